@@ -146,6 +146,19 @@ fn replay_file(path: &str) -> i32 {
                 None
             }
             ("C02", _) => Some(c02::replay(&r)),
+            ("C06", sc) => {
+                if !c06::replay(&report, sc, &r) {
+                    return None;
+                }
+                None
+            }
+            ("C17", _) => {
+                if !c17::replay(&report, &r) {
+                    return None;
+                }
+                None
+            }
+            ("C10", _) => Some(c10::replay(&r)?),
             ("C05", "reconnect-history") => Some(c05::replay(&r)),
             ("C07", _) if r["actions"].is_array() => Some(c07_c08::replay::<c07_c08::Vanilla>(&r)),
             ("C08", _) if r["actions"].is_array() => Some(c07_c08::replay::<c07_c08::Tbc>(&r)),
